@@ -143,6 +143,32 @@ def run(ck):
         check_history(ck, "C16.R4", cname + ".statistics_from_samples", osite, mk,
                       lambda it, c: it.ops.subscript(it, call(it, c[1], "statistics_from_samples", c[0], c[2]), VConst("mean"), None), max_paths=40)
     ck.require_min("C16.R4", 6)
+    # ------------------------------------------------------------------ R5 a leaf's result is not written to
+    # A leaf may hand back a view of the batch (a user observable returning samples[:, 0] does); arithmetic on it must build
+    # new values.  Decided on effects: no write reaches the batch's storage, and the leaf result keeps its value.
+    def _view_stub(it, func, env, node):
+        smp = argp(env, 2)
+        return it.ops.index_tensor(it, smp, [VSlice(None, None, None), VConst(0)], node)
+
+    VSTUBS = {"SigmaZ.apply": _view_stub, "SigmaX.apply": _view_stub}
+    for cname, build in (("2*a", lambda it, a, b: binop(it, "Mult", VConst(2), a, None)), ("a*2", lambda it, a, b: binop(it, "Mult", a, VConst(2), None)),
+                         ("-a", lambda it, a, b: unaryop(it, "USub", a, None)), ("1 - a", lambda it, a, b: binop(it, "Sub", VConst(1), a, None)),
+                         ("a + b", lambda it, a, b: binop(it, "Add", a, b, None)), ("a - 3*b", lambda it, a, b: binop(it, "Sub", a, binop(it, "Mult", VConst(3), b, None), None))):
+        with ck.guard("C16.R5", cname, osite):
+            def thv(it, build=build):
+                a, b, s, smp = _ctx(it, prog)
+                comp = build(it, a, b)
+                n0 = len(it.effects)
+                r = call(it, comp, "apply", s, smp)
+                return smp, r, n0
+
+            for p in returning(paths_of(prog, thv, stubs=VSTUBS), cname):
+                smp, r, n0 = p.value
+                wr = [e for e in p.effects[n0:] if e.kind == "write" and "param:samples" in e.origins]
+                ck.check(not wr, "C16.R5", cname + ":the batch is not written through a leaf's result", wr[0].site if wr else osite,
+                         "evaluating %s writes into the sample batch: a leaf that returns a view of the batch (e.g. samples[:, 0]) has its values, and the chain state, overwritten" % cname)
+                ck.check(smp.obj.term == T.sym("samples"), "C16.R5", cname + ":batch unchanged", osite, "the batch holds %r after evaluating %s" % (smp.obj.term, cname))
+    ck.require_min("C16.R5", 12)
     ck.require_min("C16.R1", 40)
     ck.require_min("C16.R2", 20)
     ck.require_min("C16.R3", 40)
